@@ -11,7 +11,7 @@ namespace Tcpcl
 
 def emitOK (cfg : Cfg) : Msg → Prop
   | .xferRefuse .. => False
-  | .sessInit ka sm _ _ _ => sm = cfg.segMru ∧ ka = cfg.keepalive
+  | .sessInit ka sm xm node _ => sm = cfg.segMru ∧ ka = cfg.keepalive ∧ xm = sizeMax ∧ node = cfg.nodeId
   | .keepalive => 0 < cfg.keepalive
   | _ => True
 
@@ -62,7 +62,7 @@ theorem emitInv_sendContact (e : Ep) (hi : EmitInv e) : EmitInv (sendContact e) 
 
 theorem emitInv_sendInit (e : Ep) (hi : EmitInv e) : EmitInv (sendInit e) :=
   emitInv_of_view (e := sendMessage e (.sessInit e.cfg.keepalive e.cfg.segMru sizeMax e.cfg.nodeId (sessionExt e.cfg)))
-    rfl (emitInv_sendMessage e _ hi ⟨rfl, rfl⟩)
+    rfl (emitInv_sendMessage e _ hi ⟨rfl, rfl, rfl, rfl⟩)
 
 theorem emitInv_sendReject (e : Ep) (r : Nat) (m : Msg) (hi : EmitInv e) : EmitInv (sendReject e r m) :=
   emitInv_sendMessage e _ hi
